@@ -23,6 +23,8 @@ cmp -s "$ROOT/build/gen/Comparators_gen.v" "$ROOT/coq/Gen/Comparators_gen.v" || 
 cmp -s "$ROOT/build/gen/Decisions_gen.v" "$ROOT/coq/Gen/Decisions_gen.v" || cp "$ROOT/build/gen/Decisions_gen.v" "$ROOT/coq/Gen/Decisions_gen.v"
 "$ROOT/build/vh" fragments -out "$ROOT/build/gen/fragments" "$ROOT/build/gen/Windcount_gen.v" >/dev/null || exit 1
 cmp -s "$ROOT/build/gen/Windcount_gen.v" "$ROOT/coq/Gen/Windcount_gen.v" || cp "$ROOT/build/gen/Windcount_gen.v" "$ROOT/coq/Gen/Windcount_gen.v"
+"$ROOT/build/vh" pure -out "$ROOT/build/gen/pure" "$ROOT/build/gen/RectLeaf_gen.v" >/dev/null || exit 1
+cmp -s "$ROOT/build/gen/RectLeaf_gen.v" "$ROOT/coq/Gen/RectLeaf_gen.v" || cp "$ROOT/build/gen/RectLeaf_gen.v" "$ROOT/coq/Gen/RectLeaf_gen.v"
 cd "$ROOT/coq"
 if [ ! -f Makefile ] || [ _CoqProject -nt Makefile ]; then
   coq_makefile -f _CoqProject -o Makefile >/dev/null
